@@ -96,6 +96,7 @@ def c05(rep, tier):
     r_pair.run_interrupt_tags(p, rep)
     r_pair.run_for_else(p, rep)
     r_pair.run_loop_index(p, rep)
+    r_pair.run_argflow(p, rep)
     rep.analysed["config:all"] = {"bodies": len(p.fns)}
 
 
@@ -109,6 +110,7 @@ def c06(rep, tier):
     r_table.run_existence(p, rep)
     r_table.run_truth_table(p, rep)
     r_cmp.run_eqonly(p, rep)
+    r_pair.run_argflow(p, rep)
     rep.analysed["config:all"] = {"bodies": len(p.fns)}
 
 
